@@ -4,6 +4,7 @@ import (
 	"fmt"
 	"go/token"
 	"go/types"
+	"sort"
 	"strings"
 
 	"golang.org/x/tools/go/ssa"
@@ -344,4 +345,818 @@ func ruleCanonicalAnnotationKey(r *Run) {
 		}
 	}
 	r.check(n >= 1, "neuronjson:annotation-key-constructors", fmt.Sprintf("%d constructors build a store key from a string parameter", n), "none found: rule needs review", "-")
+}
+
+// ---------------------------------------------------------------------------------------------
+// R7.10 — the branch a new child is stored with is the branch its siblings were compared with.
+
+func init() {
+	register(ruleDef{ID: "R7.10", Prop: "C07", Tier: "quick", Floor: 3,
+		Title: "the branch a new version is given is the branch that was checked for uniqueness: in newVersion every comparison of another node's branch inside a loop (over the parent's children, over all nodes) compares with the very value that reaches the store into the child's branch field along that path",
+		Fn:    ruleBranchCheckedIsBranchStored})
+}
+
+func ruleBranchCheckedIsBranchStored(r *Run) {
+	w := r.W
+	f := w.method("datastore", "repoManager", "newVersion")
+	if f == nil {
+		r.undecided("datastore.repoManager.newVersion", "anchor not found")
+		return
+	}
+	isBranchLoad := func(v ssa.Value) bool {
+		u, ok := stripConv(v).(*ssa.UnOp)
+		if !ok || u.Op != token.MUL {
+			return false
+		}
+		fa, ok := u.X.(*ssa.FieldAddr)
+		if !ok {
+			return false
+		}
+		name, _, _ := fieldName(fa)
+		return name == "branch"
+	}
+	// the store into the new child's branch field
+	var store *ssa.Store
+	for _, b := range f.Blocks {
+		for _, in := range b.Instrs {
+			st, ok := in.(*ssa.Store)
+			if !ok {
+				continue
+			}
+			fa, ok := st.Addr.(*ssa.FieldAddr)
+			if !ok {
+				continue
+			}
+			if name, _, _ := fieldName(fa); name == "branch" {
+				store = st
+			}
+		}
+	}
+	if store == nil {
+		r.undecided("newVersion:child.branch", "store into the child's branch field not found")
+		return
+	}
+	loops := naturalLoops(f)
+	inLoop := func(b *ssa.BasicBlock) bool {
+		for _, set := range loops {
+			if set[b] {
+				return true
+			}
+		}
+		return false
+	}
+	reaches := func(from, to, avoid *ssa.BasicBlock) bool {
+		seen := map[*ssa.BasicBlock]bool{}
+		stack := []*ssa.BasicBlock{from}
+		for len(stack) > 0 {
+			x := stack[len(stack)-1]
+			stack = stack[:len(stack)-1]
+			if seen[x] || (x == avoid && x != from) {
+				continue
+			}
+			seen[x] = true
+			if x == to {
+				return true
+			}
+			stack = append(stack, x.Succs...)
+		}
+		return false
+	}
+	k := 0
+	for _, b := range f.Blocks {
+		if !inLoop(b) {
+			continue
+		}
+		for _, in := range b.Instrs {
+			bo, ok := in.(*ssa.BinOp)
+			if !ok || (bo.Op != token.EQL && bo.Op != token.NEQ) {
+				continue
+			}
+			var y ssa.Value
+			if isBranchLoad(bo.X) {
+				y = stripConv(bo.Y)
+			} else if isBranchLoad(bo.Y) {
+				y = stripConv(bo.X)
+			}
+			if y == nil {
+				continue
+			}
+			k++
+			ok2 := true
+			x := stripConv(store.Val)
+			if phi, isPhi := x.(*ssa.Phi); isPhi {
+				for i, e := range phi.Edges {
+					pred := phi.Block().Preds[i]
+					if reaches(b, pred, phi.Block()) && stripConv(e) != y {
+						ok2 = false
+					}
+				}
+			} else if reaches(b, store.Block(), nil) && x != y {
+				ok2 = false
+			}
+			r.check(ok2, fmt.Sprintf("newVersion:branch-comparison#%d", k), "the compared branch is the value stored into the child along every path from the comparison",
+				"the uniqueness check compares other nodes' branches with one value and the child is then stored with another: a plain newversion on a node of a named branch is compared with the empty request value, finds no sibling, and a second child lands on the same branch", w.pos(bo.Pos()))
+		}
+	}
+	r.check(k >= 2, "newVersion:branch-comparisons", fmt.Sprintf("%d comparisons of other nodes' branches inside loops", k), "fewer than the two loops confirmed by reading: rule needs review", w.fpos(f))
+}
+
+// ---------------------------------------------------------------------------------------------
+// R12.11 / R6.14 / R7.12 — handing out the current value of an id counter advances the counter:
+// in every datastore function that both stores into repoID / versionID / instanceID of the repo
+// manager and returns a value computed from a load of that counter, each path from the load to a
+// return without error passes a store into the counter.
+
+func init() {
+	reg := func(id, prop string) {
+		register(ruleDef{ID: id, Prop: prop, Tier: "quick", Floor: 4,
+			Title: "an id handed out is never handed out again: in every datastore function that stores into a repo-manager id counter (repoID, versionID, instanceID) and returns a value computed from a load of it, every path from that load to a return without error passes a store into the counter",
+			Fn:    ruleCounterAdvancedOnEveryPath})
+	}
+	reg("R12.11", "C12")
+	reg("R6.14", "C06")
+	reg("R7.12", "C07")
+}
+
+func ruleCounterAdvancedOnEveryPath(r *Run) {
+	w := r.W
+	n := 0
+	for _, f := range w.RepoFuncs {
+		if relPkg(pkgPathOf(f)) != "datastore" || len(f.Blocks) == 0 || strings.HasSuffix(w.fposFile(f), "_test.go") {
+			continue
+		}
+		for _, ctr := range []string{"repoID", "versionID", "instanceID"} {
+			stores := fieldStores(f, "repoManager", ctr)
+			if len(stores) == 0 {
+				continue
+			}
+			isStore := func(x ssa.Instruction) bool {
+				for _, s := range stores {
+					if ssa.Instruction(s) == x {
+						return true
+					}
+				}
+				return false
+			}
+			k := 0
+			for _, b := range f.Blocks {
+				for _, in := range b.Instrs {
+					ld, ok := in.(*ssa.UnOp)
+					if !ok || ld.Op != token.MUL {
+						continue
+					}
+					fa, ok := ld.X.(*ssa.FieldAddr)
+					if !ok {
+						continue
+					}
+					if name, _, _ := fieldName(fa); name != ctr || !strings.HasSuffix(fa.X.Type().String(), "repoManager") {
+						continue
+					}
+					// returned?
+					returned := false
+					for _, b2 := range f.Blocks {
+						if ret, ok := b2.Instrs[len(b2.Instrs)-1].(*ssa.Return); ok {
+							for _, rv := range ret.Results {
+								if rv == ssa.Value(ld) || dataDeps(rv)[ld] {
+									returned = true
+								}
+							}
+						}
+					}
+					if !returned {
+						continue
+					}
+					k++
+					n++
+					p := findPath(f, ld, isStore, func(x ssa.Instruction) bool {
+						ret, ok := x.(*ssa.Return)
+						if !ok || isErrorExit(ret) {
+							return false
+						}
+						for _, rv := range ret.Results {
+							if rv == ssa.Value(ld) || dataDeps(rv)[ld] {
+								return true
+							}
+						}
+						return false
+					}, allEdges)
+					r.check(p == nil, fmt.Sprintf("%s:%s#%d:advanced-before-returned", fname(f), ctr, k), "every return of the loaded counter value lies behind a store into the counter",
+						"the current value of the id counter "+ctr+" is returned along a path that does not advance the counter: the next allocation hands out the same id, so two versions (repos, instances) share one local id and with it their storage keys", w.pos(ld.Pos()), w.renderPath(p)...)
+				}
+			}
+		}
+	}
+	r.check(n >= 3, "datastore:id-allocations", fmt.Sprintf("%d returned counter loads in allocating functions", n), "fewer than the three allocators confirmed by reading: rule needs review", "-")
+}
+
+// ---------------------------------------------------------------------------------------------
+// R12.12 / R6.15 — every writer of the persisted id-counter record lays the three counters out in
+// the order in which the loader reads them.
+
+func init() {
+	reg := func(id, prop string) {
+		register(ruleDef{ID: id, Prop: prop, Tier: "quick", Floor: 3,
+			Title: "the persisted id-counter record has one layout: every datastore function that puts a value under the new-ids metadata key concatenates the repo-manager counters in the order in which the loader slices them out of the stored value (by ascending offset)",
+			Fn:    ruleNewIDsLayout})
+	}
+	reg("R12.12", "C12")
+	reg("R6.15", "C06")
+}
+
+func ruleNewIDsLayout(r *Run) {
+	w := r.W
+	isCounter := func(name string) bool { return name == "repoID" || name == "versionID" || name == "instanceID" }
+	counterOfLoad := func(v ssa.Value) string {
+		u, ok := stripConv(v).(*ssa.UnOp)
+		if !ok || u.Op != token.MUL {
+			return ""
+		}
+		fa, ok := u.X.(*ssa.FieldAddr)
+		if !ok {
+			return ""
+		}
+		name, _, _ := fieldName(fa)
+		if isCounter(name) && strings.HasSuffix(fa.X.Type().String(), "repoManager") {
+			return name
+		}
+		return ""
+	}
+	usesNewIDsKey := func(key ssa.Value) bool {
+		for d := range dataDeps(key) {
+			c, ok := d.(*ssa.Call)
+			if !ok {
+				continue
+			}
+			callee := c.Call.StaticCallee()
+			if callee == nil || callee.Name() != "NewTKey" || len(c.Call.Args) != 2 {
+				continue
+			}
+			if k, ok := c.Call.Args[0].(*ssa.Const); ok {
+				if obj := w.pkgScopeConst("datastore", "newIDsKey"); obj != nil && k.Value != nil && k.Value.String() == obj.String() {
+					return true
+				}
+			}
+		}
+		return false
+	}
+	var seqOf func(v ssa.Value, depth int) []string
+	seqOf = func(v ssa.Value, depth int) []string {
+		if depth > 8 {
+			return nil
+		}
+		switch x := v.(type) {
+		case *ssa.Call:
+			if b, ok := x.Call.Value.(*ssa.Builtin); ok && b.Name() == "append" {
+				var out []string
+				for _, a := range x.Call.Args {
+					out = append(out, seqOf(a, depth+1)...)
+				}
+				return out
+			}
+			if callee := x.Call.StaticCallee(); callee != nil && callee.Name() == "Bytes" && len(x.Call.Args) == 1 {
+				if n := counterOfLoad(x.Call.Args[0]); n != "" {
+					return []string{n}
+				}
+			}
+		case *ssa.Slice:
+			return seqOf(x.X, depth+1)
+		case *ssa.ChangeType:
+			return seqOf(x.X, depth+1)
+		}
+		return nil
+	}
+	var readerSeq []string
+	var readerAt string
+	type writer struct {
+		f   *ssa.Function
+		seq []string
+		pos string
+	}
+	var writers []writer
+	for _, f := range w.RepoFuncs {
+		if relPkg(pkgPathOf(f)) != "datastore" || len(f.Blocks) == 0 || strings.HasSuffix(w.fposFile(f), "_test.go") {
+			continue
+		}
+		for _, c := range calls(f) {
+			name := methodNameOf(c)
+			args := c.Common().Args
+			if name == "Put" && c.Common().IsInvoke() && len(args) == 3 && usesNewIDsKey(args[1]) {
+				writers = append(writers, writer{f, seqOf(args[2], 0), w.pos(c.Pos())})
+			}
+			if name == "Get" && c.Common().IsInvoke() && len(args) == 2 && usesNewIDsKey(args[1]) {
+				// the loader: stores into the counters from slices of the value, ordered by offset
+				type rd struct {
+					off  int64
+					name string
+				}
+				var rds []rd
+				for _, b := range f.Blocks {
+					for _, in := range b.Instrs {
+						st, ok := in.(*ssa.Store)
+						if !ok {
+							continue
+						}
+						fa, ok := st.Addr.(*ssa.FieldAddr)
+						if !ok {
+							continue
+						}
+						fname2, _, _ := fieldName(fa)
+						if !isCounter(fname2) {
+							continue
+						}
+						for d := range dataDeps(st.Val) {
+							if sl, ok := d.(*ssa.Slice); ok && sl.Low != nil {
+								if l := lin(sl.Low, 0); l.ok && len(l.terms) == 0 {
+									rds = append(rds, rd{l.c, fname2})
+								}
+							} else if ok && sl.Low == nil && sl.High != nil {
+								rds = append(rds, rd{0, fname2})
+							}
+						}
+					}
+				}
+				sort.Slice(rds, func(i, j int) bool { return rds[i].off < rds[j].off })
+				readerSeq = nil
+				for _, x := range rds {
+					readerSeq = append(readerSeq, x.name)
+				}
+				readerAt = fname(f)
+			}
+		}
+	}
+	if len(readerSeq) != 3 {
+		r.undecided("datastore:new-ids-loader", fmt.Sprintf("the loader's layout could not be read (got %v)", readerSeq))
+		return
+	}
+	r.note("R12.12: loader %s reads %v", readerAt, readerSeq)
+	for _, wr := range writers {
+		r.check(strings.Join(wr.seq, ",") == strings.Join(readerSeq, ","), fname(wr.f)+":new-ids-record:layout", "written as "+strings.Join(wr.seq, ",")+", as the loader reads it",
+			fmt.Sprintf("the id-counter record is written as %v but the loader reads %v: after a start on this record a counter takes another counter's value, and ids already in use are handed out again", wr.seq, readerSeq), wr.pos)
+	}
+	r.check(len(writers) >= 2, "datastore:new-ids-writers", fmt.Sprintf("%d writers of the id-counter record", len(writers)), "fewer than the two writers confirmed by reading (putNewIDs, FlattenMetadata): rule needs review", "-")
+}
+
+// ---------------------------------------------------------------------------------------------
+// R6.16 / R12.13 — local instance ids are minted by the allocator only: the id a data service is
+// given (SetInstanceID, TypeService.NewDataService) in package datastore comes, on every path,
+// from a call of repoManager.newInstanceID.
+
+func init() {
+	reg := func(id, prop string) {
+		register(ruleDef{ID: id, Prop: prop, Tier: "quick", Floor: 3,
+			Title: "local instance ids come from the allocator only: in package datastore, the instance id handed to a data service (SetInstanceID, TypeService.NewDataService) is, along every path, the result of repoManager.newInstanceID — never an id taken from a received repo or a request",
+			Fn:    ruleInstanceIDFromAllocator})
+	}
+	reg("R6.16", "C06")
+	reg("R12.13", "C12")
+}
+
+func ruleInstanceIDFromAllocator(r *Run) {
+	w := r.W
+	n := 0
+	for _, f := range w.RepoFuncs {
+		if relPkg(pkgPathOf(f)) != "datastore" || len(f.Blocks) == 0 || strings.HasSuffix(w.fposFile(f), "_test.go") {
+			continue
+		}
+		k := 0
+		for _, c := range calls(f) {
+			name := methodNameOf(c)
+			var arg ssa.Value
+			args := c.Common().Args
+			switch {
+			case name == "SetInstanceID" && len(args) >= 1:
+				arg = args[len(args)-1]
+			case name == "NewDataService" && c.Common().IsInvoke() && len(args) == 4:
+				arg = args[1]
+			}
+			if arg == nil {
+				continue
+			}
+			k++
+			n++
+			bad := ""
+			for _, rt := range roots(arg, f) {
+				v := rt.V
+				if ex, ok := v.(*ssa.Extract); ok {
+					v = ex.Tuple
+				}
+				if call, ok := v.(*ssa.Call); ok {
+					if callee := call.Call.StaticCallee(); callee != nil && callee.Name() == "newInstanceID" {
+						continue
+					}
+				}
+				bad = fmt.Sprintf("%s (%T)", v.Name(), v)
+			}
+			r.check(bad == "", fmt.Sprintf("%s:%s#%d:id-from-allocator", fname(f), name, k), "the id is the result of newInstanceID along every path",
+				"a data service is given an instance id that does not come from the allocator along some path ("+bad+"): an id taken over from a received repo or a request is not reserved in the live-id set, so the allocator can hand it to another instance, and the two share every storage key", w.pos(c.Pos()))
+		}
+	}
+	r.check(n >= 2, "datastore:instance-id-assignments", fmt.Sprintf("%d sites give a data service its instance id", n), "fewer than the two sites confirmed by reading (newData, remapLocalIDs): rule needs review", "-")
+}
+
+// ---------------------------------------------------------------------------------------------
+// R12.15 / R19.7 — a copied instance continues the label counters of its source: the
+// CopyPropertiesFrom of a label data type stores into every label-counter field its Data has
+// (MaxLabel, MaxRepoLabel, NextLabel), because LoadMutable, which could rebuild them, only runs at start.
+
+func init() {
+	register(ruleDef{ID: "R12.14", Prop: "C12", Tier: "quick", Floor: 4,
+		Title: "(shared with R6.4) instance ids are tested against the live set, incremented under idMutex and persisted afterwards",
+		Fn:    ruleR6_4})
+	reg := func(id, prop string) {
+		register(ruleDef{ID: id, Prop: prop, Tier: "quick", Floor: 3,
+			Title: "a copied label instance continues its source's label counters: for every data type whose Data has label-counter fields (MaxLabel, MaxRepoLabel, NextLabel), CopyPropertiesFrom stores into each of them from the source instance",
+			Fn:    ruleCopyKeepsLabelCounters})
+	}
+	reg("R12.15", "C12")
+	reg("R19.7", "C19")
+}
+
+func ruleCopyKeepsLabelCounters(r *Run) {
+	w := r.W
+	n := 0
+	for _, pkg := range []string{"datatype/labelmap", "datatype/labelarray", "datatype/labelvol", "datatype/labelblk"} {
+		f := w.method(pkg, "Data", "CopyPropertiesFrom")
+		nt := w.named(pkg, "Data")
+		if f == nil || nt == nil || len(f.Blocks) == 0 {
+			continue
+		}
+		// the counter fields this Data has (directly or through an embedded Properties)
+		have := map[string]bool{}
+		var walk func(t types.Type, depth int)
+		walk = func(t types.Type, depth int) {
+			st, ok := t.Underlying().(*types.Struct)
+			if !ok || depth > 2 {
+				return
+			}
+			for i := 0; i < st.NumFields(); i++ {
+				fd := st.Field(i)
+				switch fd.Name() {
+				case "MaxLabel", "MaxRepoLabel", "NextLabel":
+					have[fd.Name()] = true
+				}
+				if fd.Embedded() && fd.Name() == "Properties" {
+					walk(fd.Type(), depth+1)
+				}
+			}
+		}
+		walk(nt, 0)
+		if len(have) == 0 {
+			continue
+		}
+		stored := map[string]bool{}
+		for _, g := range append([]*ssa.Function{f}, calleesIn(w, f, pkg)...) {
+			for _, b := range g.Blocks {
+				for _, in := range b.Instrs {
+					if st, ok := in.(*ssa.Store); ok {
+						if fa, ok := st.Addr.(*ssa.FieldAddr); ok {
+							name, _, _ := fieldName(fa)
+							stored[name] = true
+						}
+					}
+				}
+			}
+		}
+		for _, name := range []string{"MaxLabel", "MaxRepoLabel", "NextLabel"} {
+			if !have[name] {
+				continue
+			}
+			n++
+			r.check(stored[name], fmt.Sprintf("%s.CopyPropertiesFrom:%s", pkg, name), "the counter is taken over from the source",
+				"CopyPropertiesFrom leaves the label counter "+name+" of the copy at zero: the counters are rebuilt from the store only at server start, so until then the copy hands out labels that its copied voxels already use", w.fpos(f))
+		}
+	}
+	r.check(n >= 3, "label-types:counter-fields-copied", fmt.Sprintf("%d counter fields in copy methods", n), "fewer than confirmed by reading: rule needs review", "-")
+}
+
+// calleesIn: the static callees of f inside pkg (one level).
+func calleesIn(w *World, f *ssa.Function, pkg string) []*ssa.Function {
+	var out []*ssa.Function
+	for _, c := range calls(f) {
+		if g := staticCallee(c); g != nil && len(g.Blocks) > 0 && relPkg(pkgPathOf(g)) == pkg {
+			out = append(out, g)
+		}
+	}
+	return out
+}
+
+// ---------------------------------------------------------------------------------------------
+// R3.17 / R16.15 — a metadata value is cached under the key it was loaded with.
+// R3.18 — a cache derived from the synced instances is dropped whenever the syncs were changed.
+
+func init() {
+	reg := func(id, prop string) {
+		register(ruleDef{ID: id, Prop: prop, Tier: "quick", Floor: 3,
+			Title: "metadata is cached under the key it was loaded with: in neuronjson, every store into the in-memory metadata map whose value comes from a metadata load or a request for a constant schema kind uses that same kind as the map key",
+			Fn:    ruleMetadataKeyAgrees})
+	}
+	reg("R3.17", "C03")
+	reg("R16.15", "C16")
+	register(ruleDef{ID: "R3.18", Prop: "C03", Tier: "quick", Floor: 2,
+		Title: "a cache computed from the synced instances does not outlive a change of the syncs: in every data type with a cached block size, each exit without error reachable after datastore.SetSyncByJSON passes a store of nil into the cache field",
+		Fn:    ruleSyncChangeDropsCache})
+}
+
+func ruleMetadataKeyAgrees(r *Run) {
+	w := r.W
+	n := 0
+	for _, f := range w.RepoFuncs {
+		if relPkg(pkgPathOf(f)) != "datatype/neuronjson" || len(f.Blocks) == 0 || strings.HasSuffix(w.fposFile(f), "_test.go") {
+			continue
+		}
+		k := 0
+		for _, b := range f.Blocks {
+			for _, in := range b.Instrs {
+				mu, ok := in.(*ssa.MapUpdate)
+				if !ok {
+					continue
+				}
+				fa := mapFieldAddr(mu.Map)
+				if fa == nil {
+					continue
+				}
+				if name, _, _ := fieldName(fa); name != "metadata" {
+					continue
+				}
+				for d := range dataDeps(mu.Value) {
+					c, ok := d.(*ssa.Call)
+					if !ok {
+						continue
+					}
+					callee := c.Call.StaticCallee()
+					if callee == nil || callee.Name() != "loadMetadata" || len(c.Call.Args) < 3 {
+						continue
+					}
+					k++
+					n++
+					loaded := c.Call.Args[2]
+					same := false
+					if lc, ok := loaded.(*ssa.Const); ok {
+						if kc, ok := mu.Key.(*ssa.Const); ok && lc.Value != nil && kc.Value != nil && lc.Value.String() == kc.Value.String() {
+							same = true
+						}
+					} else if stripConv(loaded) == stripConv(mu.Key) {
+						same = true
+					}
+					r.check(same, fmt.Sprintf("%s:metadata-cache#%d", fname(f), k), "cached under the kind it was loaded with",
+						"a metadata value loaded for one schema kind is cached under another: after a restart GET of the one kind answers with the other's document and the other kind is missing", w.pos(mu.Pos()))
+				}
+			}
+		}
+	}
+	r.check(n >= 2, "neuronjson:metadata-cache-loads", fmt.Sprintf("%d cached metadata loads", n), "fewer than the two confirmed by reading: rule needs review", "-")
+}
+
+func ruleSyncChangeDropsCache(r *Run) {
+	w := r.W
+	n := 0
+	for _, f := range w.RepoFuncs {
+		if !strings.HasPrefix(relPkg(pkgPathOf(f)), "datatype/") || len(f.Blocks) == 0 || strings.HasSuffix(w.fposFile(f), "_test.go") {
+			continue
+		}
+		// the data type has a cached block size
+		hasCache := false
+		if nt := w.named(relPkg(pkgPathOf(f)), "Data"); nt != nil {
+			if st, ok := nt.Underlying().(*types.Struct); ok {
+				for i := 0; i < st.NumFields(); i++ {
+					if st.Field(i).Name() == "cachedBlockSize" {
+						hasCache = true
+					}
+				}
+			}
+		}
+		if !hasCache {
+			continue
+		}
+		for _, c := range calls(f) {
+			callee := staticCallee(c)
+			if callee == nil || callee.Name() != "SetSyncByJSON" || relPkg(pkgPathOf(callee)) != "datastore" {
+				continue
+			}
+			n++
+			resets := func(x ssa.Instruction) bool {
+				st, ok := x.(*ssa.Store)
+				if !ok {
+					return false
+				}
+				fa, ok := st.Addr.(*ssa.FieldAddr)
+				if !ok {
+					return false
+				}
+				name, _, _ := fieldName(fa)
+				cst, isConst := st.Val.(*ssa.Const)
+				return name == "cachedBlockSize" && isConst && cst.IsNil()
+			}
+			// the branch on which the call failed changes nothing
+			errv := ssa.Value(c.(*ssa.Call))
+			okEdge := func(b *ssa.BasicBlock, i int) bool {
+				ifi, ok := b.Instrs[len(b.Instrs)-1].(*ssa.If)
+				if !ok {
+					return true
+				}
+				bo, ok := ifi.Cond.(*ssa.BinOp)
+				if !ok || (bo.X != errv && bo.Y != errv) {
+					return true
+				}
+				if bo.Op == token.NEQ {
+					return i != 0
+				}
+				if bo.Op == token.EQL {
+					return i != 1
+				}
+				return true
+			}
+			p := findPath(f, c.(ssa.Instruction), resets, func(x ssa.Instruction) bool { _, ok := x.(*ssa.Return); return ok }, okEdge)
+			r.check(p == nil, fname(f)+":sync-change:drops-cached-block-size", "every exit after a successful change of the syncs resets the cache",
+				"the syncs of the instance were changed but the cached block size, which is taken from the synced label instance, survives on some path: elements posted from now on are filed under blocks of the old size, and a restart (which recomputes the size) no longer finds them", w.pos(c.Pos()), w.renderPath(p)...)
+		}
+	}
+	r.check(n >= 1, "datatypes:sync-changes-with-cache", fmt.Sprintf("%d sync changes in data types with a cached block size", n), "none found: rule needs review", "-")
+}
+
+// ---------------------------------------------------------------------------------------------
+// R16.17 — every way into the record update passes the bodyid check: the function that reads,
+// merges and writes back an annotation record is called only behind a lookup of the posted
+// record's "bodyid" (the validation that the record names the body of its key).
+
+func init() {
+	register(ruleDef{ID: "R16.16", Prop: "C16", Tier: "quick", Floor: 4,
+		Title: "(shared with R4.4/R1.2) a versioned Put clears the same-version tombstone in the same transaction, so a key deleted and written again in one version reads the same from the store as from the in-memory head",
+		Fn:    ruleR1_2})
+	register(ruleDef{ID: "R16.17", Prop: "C16", Tier: "quick", Floor: 2,
+		Title: "every way into the record update passes the bodyid check: each static call site of neuronjson's read-merge-write function is dominated by a lookup of \"bodyid\" in the posted record, so a batch or single POST cannot store a record without a body id or under another body's key",
+		Fn:    ruleUpdateBehindBodyidCheck})
+}
+
+func ruleUpdateBehindBodyidCheck(r *Run) {
+	w := r.W
+	n := 0
+	for _, f := range w.RepoFuncs {
+		if relPkg(pkgPathOf(f)) != "datatype/neuronjson" || len(f.Blocks) == 0 || f.Parent() != nil || strings.HasSuffix(w.fposFile(f), "_test.go") {
+			continue
+		}
+		get, put := false, false
+		for _, c := range calls(f) {
+			switch callName(c) {
+			case "getStoreData":
+				get = true
+			case "putStoreData":
+				put = true
+			}
+		}
+		if !get || !put {
+			continue
+		}
+		sites := callSitesOf(w)[f]
+		k := 0
+		for _, s := range sites {
+			g := s.Parent()
+			if strings.HasSuffix(w.fposFile(g), "_test.go") {
+				continue
+			}
+			k++
+			n++
+			checked := false
+			for _, b := range g.Blocks {
+				for _, in := range b.Instrs {
+					lk, ok := in.(*ssa.Lookup)
+					if !ok {
+						continue
+					}
+					if c, ok := lk.Index.(*ssa.Const); ok && c.Value != nil && c.Value.ExactString() == `"bodyid"` && (b == s.Block() || b.Dominates(s.Block())) {
+						checked = true
+					}
+				}
+			}
+			r.check(checked, fmt.Sprintf("%s:called-from:%s#%d", fname(f), fname(g), k), "the call lies behind a lookup of the record's bodyid",
+				"the record update is reached without the check that the posted record carries the body id of its key: a record without bodyid, or with another body's id, is stored — the in-memory head files it under the key's number while the store-backed readers skip or misplace it", w.pos(s.Pos()))
+		}
+	}
+	r.check(n >= 1, "neuronjson:record-update-call-sites", fmt.Sprintf("%d call sites of the record update", n), "none found: rule needs review", "-")
+}
+
+// ---------------------------------------------------------------------------------------------
+// R16.18 — a null never reaches the stored record: where neuronjson ranges over the posted record
+// and removes null-valued fields from it, every path on which the value was found to be nil passes
+// the delete of that field from the posted record before the next field is looked at.
+
+func init() {
+	register(ruleDef{ID: "R16.18", Prop: "C16", Tier: "quick", Floor: 2,
+		Title: "a null never reaches the stored record: in every neuronjson loop over the posted record that deletes fields from it, each path from the value-is-nil edge back to the loop head passes delete(record, field) — whether or not the stored annotation had the field",
+		Fn:    ruleNullFieldsRemoved})
+}
+
+func ruleNullFieldsRemoved(r *Run) {
+	w := r.W
+	n := 0
+	for _, f := range w.RepoFuncs {
+		if relPkg(pkgPathOf(f)) != "datatype/neuronjson" || len(f.Blocks) == 0 || strings.HasSuffix(w.fposFile(f), "_test.go") {
+			continue
+		}
+		for _, b := range f.Blocks {
+			for _, in := range b.Instrs {
+				nx, ok := in.(*ssa.Next)
+				if !ok {
+					continue
+				}
+				rg, ok := nx.Iter.(*ssa.Range)
+				if !ok {
+					continue
+				}
+				m := rg.X
+				var key, val ssa.Value
+				for _, ref := range *nx.Referrers() {
+					if ex, ok := ref.(*ssa.Extract); ok {
+						if ex.Index == 1 {
+							key = ex
+						}
+						if ex.Index == 2 {
+							val = ex
+						}
+					}
+				}
+				if key == nil || val == nil {
+					continue
+				}
+				isDel := func(x ssa.Instruction) bool {
+					c, ok := x.(*ssa.Call)
+					if !ok {
+						return false
+					}
+					bi, ok := c.Call.Value.(*ssa.Builtin)
+					return ok && bi.Name() == "delete" && len(c.Call.Args) == 2 && c.Call.Args[0] == m && c.Call.Args[1] == key
+				}
+				if findFirst(f, isDel) == nil {
+					continue
+				}
+				// the If testing the value against nil
+				for _, b2 := range f.Blocks {
+					ifi, ok := b2.Instrs[len(b2.Instrs)-1].(*ssa.If)
+					if !ok {
+						continue
+					}
+					bo, ok := ifi.Cond.(*ssa.BinOp)
+					if !ok || (bo.Op != token.EQL && bo.Op != token.NEQ) {
+						continue
+					}
+					var other ssa.Value
+					if bo.X == val {
+						other = bo.Y
+					} else if bo.Y == val {
+						other = bo.X
+					}
+					c, isConst := other.(*ssa.Const)
+					if other == nil || !isConst || !c.IsNil() {
+						continue
+					}
+					n++
+					nilSucc := 0
+					if bo.Op == token.NEQ {
+						nilSucc = 1
+					}
+					start := b2.Succs[nilSucc]
+					var first ssa.Instruction
+					if len(start.Instrs) > 0 {
+						first = start.Instrs[0]
+					}
+					bad := false
+					if first != nil && !isDel(first) {
+						// a path from the nil edge to the next iteration (the Next instruction) without the delete
+						seen := map[*ssa.BasicBlock]bool{}
+						var dfs func(x *ssa.BasicBlock) bool
+						dfs = func(x *ssa.BasicBlock) bool {
+							if seen[x] {
+								return false
+							}
+							seen[x] = true
+							for _, y := range x.Instrs {
+								if isDel(y) {
+									return false
+								}
+								if y == ssa.Instruction(nx) {
+									return true
+								}
+							}
+							for _, s := range x.Succs {
+								if dfs(s) {
+									return true
+								}
+							}
+							return false
+						}
+						bad = dfs(start)
+					}
+					r.check(!bad, fmt.Sprintf("%s:null-field-removed#%d", fname(f), n), "every path from the nil edge to the next field passes the delete",
+						"a field posted as null can stay in the record that is stored: when the stored annotation lacks the field the null is kept, GET shows \"field\":null and the field list names it — a null must remove a field's value", w.pos(bo.Pos()))
+				}
+			}
+		}
+	}
+	r.check(n >= 1, "neuronjson:null-removal-loops", fmt.Sprintf("%d nil tests in loops that delete from the ranged record", n), "none found: rule needs review", "-")
+}
+
+func init() {
+	register(ruleDef{ID: "R7.11", Prop: "C07", Tier: "quick", Floor: 10,
+		Title: "the DAG survives a restart as it was acknowledged (shared with R3.3): every change of a node's parents, children, branch or lock state and of the node map is followed by a save of the repo on every exit without error",
+		Fn:    ruleR3_3})
 }
